@@ -186,3 +186,50 @@ func loadsOfStored(v ssa.Value) []ssa.Value {
 	}
 	return out
 }
+
+// ruleErrorsChecked: in the given package, no error returned by a module function is dropped or overwritten unchecked.
+func ruleErrorsChecked(r *Run, id string, pkgRel string, floor int) {
+	r.Begin(id, "no converter error is lost: in package "+pkgRel+", the error result of every call to a function of the module is either tested against nil, returned, or handed on; an error overwritten by a later assignment before it was looked at lets an invalid field through with a zero value", floor)
+	p := r.P
+	n := 0
+	for _, fn := range p.Funcs {
+		if fnPkgPath(fn) != modPath+pkgRel {
+			continue
+		}
+		name := fnName(fn)
+		k := 0
+		allInstrs(fn, func(ins ssa.Instruction) {
+			c, ok := ins.(*ssa.Call)
+			if !ok {
+				return
+			}
+			cf := c.Call.StaticCallee()
+			if cf == nil || !p.Analysed(cf) || !returnsError(cf) {
+				return
+			}
+			n++
+			k++
+			key := fmt.Sprintf("%s call#%d %s", name, k, cf.Name())
+			used := false
+			for _, ev := range errResultsOf(c) {
+				if ev.Referrers() == nil {
+					continue
+				}
+				for _, ref := range *ev.Referrers() {
+					switch ref.(type) {
+					case *ssa.BinOp, *ssa.Return, *ssa.Call, *ssa.MakeInterface, *ssa.Phi:
+						used = true
+					case *ssa.Store:
+						for _, ld := range loadsOfStored(ev) {
+							if ld.Referrers() != nil && len(*ld.Referrers()) > 0 {
+								used = true
+							}
+						}
+					}
+				}
+			}
+			r.Check(key, used, posOf(p, c), name, "the error returned by "+cf.Name()+" is never looked at (dropped, or overwritten before any test)")
+		})
+	}
+	r.Stat("calls_returning_error", n)
+}
